@@ -37,6 +37,7 @@ class HistCheck(Check):
     def classes(self, case, obs):
         out = [case["alg"], case["sel"], case["cx"], case["repair"], "ieq=%d" % case["n_ieq"]]
         if case["alg"] in ("NSDE", "GDE3"): out += [case["surv"], case["cf"]]
+        if case.get("prime"): out.append("primed-by-other-problem")
         feas = [obs["data"][str(i)]["feas"] for i in obs["gens"][-1]["post"]]
         out.append("final-all-feasible" if all(feas) else "final-none-feasible" if not any(feas) else "final-mixed")
         return out
